@@ -287,6 +287,12 @@ class SimulatorBackend(LocalBackend):
         self._simulator_state.remove_events(trial_id)
         if trial_id in self._busy_trial_ids:
             self._busy_trial_ids.remove(trial_id)
+        # Results which were reported after the decision to stop or pause the
+        # trial, but before this event, must not be delivered (in particular
+        # not after the trial is resumed). They still count as seen
+        result_list = self._next_results_to_fetch.pop(trial_id, None)
+        if result_list is not None:
+            self._last_metric_seen_index[trial_id] += len(result_list)
 
     def _process_on_trial_result_event(
         self, time_event: float, event: OnTrialResultEvent
